@@ -15,6 +15,8 @@ MCKProgs ==
     << << WC(9, 0, "d1"), WC(8, 2, "d1") >>, << >> >>,
     << << WC(8, 2, "d1") >>, << WC(8, 0, "zero") >> >>,
     << << WC(10, 3, "past"), WC(9, 3, "zero") >>, << WC(9, 2, "d1") >> >>,
+    << << O("XC", 0, 0, "zero") >>, << WC(9, 1, "d1") >> >>,
+    << << WC(8, 2, "zero"), O("XC", 0, 0, "zero") >>, << >> >>,
     << << >>, << >> >> }
 
 (* small space for the liveness check (WCBoundedWait under fairness of the control callers only) *)
